@@ -1143,6 +1143,25 @@ class Interp:
             return mk_option(('ref', o[3][0])) if some else mk_option(None)
         if seg == 'as_deref':
             return mk_option(inner) if some else mk_option(None)
+        if seg == 'transpose':
+            # Option<Result<T, E>> <-> Result<Option<T>, E>
+            if isopt:
+                if not some:
+                    return ('adt', 'core::result::Result', 0, [Cell(mk_option(None))])
+                r_ = self.deref_all(inner)
+                if r_ is None or r_[0] != 'adt' or r_[1] != 'core::result::Result':
+                    raise Unmodelled('transpose of Some(%r)' % (r_[:1] if r_ else r_,))
+                if r_[2] == 0:
+                    return ('adt', 'core::result::Result', 0, [Cell(mk_option(r_[3][0].v if r_[3] else UNIT))])
+                return ('adt', 'core::result::Result', 1, [Cell(r_[3][0].v if r_[3] else UNIT)])
+            if not some:
+                return mk_option(('adt', 'core::result::Result', 1, [Cell(o[3][0].v if o[3] else UNIT)]))
+            o_ = self.deref_all(inner)
+            if o_ is None or o_[0] != 'adt' or o_[1] != 'core::option::Option':
+                raise Unmodelled('transpose of Ok(%r)' % (o_[:1] if o_ else o_,))
+            if o_[2] == 0:
+                return mk_option(None)
+            return mk_option(('adt', 'core::result::Result', 0, [Cell(o_[3][0].v if o_[3] else UNIT)]))
         if seg == 'flatten' and isopt:
             if not some:
                 return mk_option(None)
